@@ -535,7 +535,8 @@ def table_program(arg: dict) -> dict:
                 stack.append(f"}}\ntm{nscope}()")
                 continue
             stack.append("}")
-            lines.append("{" if style == "block" or nscope % 2 else f".scope ns{nscope} {{")
+            # named scopes take their name from the nesting depth: siblings share a name (and are still separate scopes)
+            lines.append("{" if style == "block" else f".scope lvl{len(stack)} {{")
         elif it["k"] == "ifopen":
             lines.append(".if 1 {")
             stack.append("}")
@@ -623,6 +624,12 @@ SESSION_SOURCES = {
     "highbr": {"src": "*=0x418000\nagain:\nnop\nbne again\nbra again\n", "rom": "high"},
     "p_lowbr": {"src": "*=0x418000\nagain:\nnop\nbne again\nbra again\n"},
     # an included binary whose file name is not an identifier
+    # positions visited under the default mapping, then under a declared mapping of another geometry
+    "positions": {"src": "*=0x018000\nhere:\n.dl here\n*=0x818000\nmir:\n.dl mir\n@=0x028000\nrel:\n.dl rel\n"},
+    "p_map64": {"src": ".map identifier=1 bank_range=0x00, 0x3f addr_range=0x0000, 0xffff mask=0x10000 mirror_bank_range=0x80, 0xbf\n"
+                       "*=0x018000\nhere:\n.dl here\n*=0x818000\nmir:\n.dl mir\n@=0x028000\nrel:\n.dl rel\n"},
+    # one text mapped twice (the later line wins)
+    "p_tableDup": {"src": "*=0x008000\n.table 't.tbl'\n.text 'abab'\n", "files": {"t.tbl": {"text": "01=a\n02=a\n03=b\n04=b\n05=ab\n06=ab\n"}}},
     "p_incbinDash": {"src": "*=0x008000\n.incbin 'font-8x8.bin'\nafter:\n.dl after\n", "files": {"font-8x8.bin": {"bytes": [1, 2, 3, 4, 5]}}},
     "p_fileA": {"entry": "file", "main": "dirA/main.s",
                 "files": {"dirA/main.s": {"text": "*=0x008000\n.include 'defs.s'\n.db val\n"}, "dirA/defs.s": {"text": "val = 1\n"}}},
@@ -699,9 +706,7 @@ def _file_assembly(s: dict) -> dict:
     write_files(s["files"], chdir=False)
     out = {"ok": False, "err": "", "calls": [], "labels": []}
     try:
-        outp = os.path.join(_workdir(), "out.sfc")
-        if os.path.exists(outp):
-            os.remove(outp)
+        outp = os.path.join(_workdir(), "out.sfc")     # (left in place between the assemblies of a session)
         p = Program()
         st = p.assemble(s["main"], outp)
         out["ok"] = st == 0
